@@ -178,9 +178,62 @@ def check_program(col, pp, cfg, prog, queries=None, draw=None):
                 col.nontrivial_key(f"remaining|{okind}|{fam}|{mode}|{kinds}")
 
 
+def lots_case(col, pp, cfg, case):
+    """Two lots of one enzyme (same name, different specific activity) in different wells of one plate, asked about
+    in a mass unit.  Substance equality ignores the specific activity, so anything keyed by Substance must not stand
+    in for the per-lot conversion.  Expected values from first principles, without the reference model (which keys
+    substances by name): mass of a well = share of the water + share of the activity / that lot's specific activity.
+    case: {'lots': [[sa U/mg, activity U, aliquot uL], [..]], 'unit': 'mg'|'ug'|'g'}"""
+    import numpy
+    core.env.clear_caches()
+    col.case()
+    col.label('lots')
+    S = pp.Substance
+    water = S.liquid('H2O', 18.0153, 1.0)
+    d_enz = float(cfg['default_enzyme_density'])             # U per mL
+    plate = pp.Plate('p', '2 mL', rows=len(case['lots']), columns=1)
+    srcs, exp_g = [], []
+    for k, (sa, act, q) in enumerate(case['lots']):
+        lot = S.enzyme('lipase', f"{sa} U/mg")
+        srcs.append(pp.Container(f"lot{k + 1}", initial_contents=[(water, '1 mL'), (lot, f"{act} U")]))
+        vol_uL = 1000.0 + (act / d_enz * 1000.0 if d_enz != float('inf') else 0.0)
+        share = q / vol_uL
+        exp_g.append(share * 1.0 + share * act / (sa * 1000.0))        # 1 mL of water weighs 1 g; sa in U/g = sa * 1000
+    r = pp.Recipe()
+    r.uses(plate, *srcs)
+    for k, (sa, act, q) in enumerate(case['lots']):
+        r.transfer(srcs[k], plate[k + 1, 1], f"{q} uL")
+    r.bake()
+    unit = case['unit']
+    scale = {'g': 1.0, 'mg': 1e3, 'ug': 1e6}[unit]
+    p = cfg.precision(unit)
+    tol = [0.51 * 10 ** -p + 1e-7 * x * scale for x in exp_g]
+    rem = numpy.asarray(r.get_amount_remaining(plate, 'all', unit), dtype=float).flatten()
+    flows = r.get_container_flows(plate, 'all', unit)
+    fin = numpy.asarray(flows['in'], dtype=float).flatten()
+    for k, x in enumerate(exp_g):
+        if abs(rem[k] - x * scale) > tol[k]:
+            col.report('lots/get_amount_remaining/well-of-another-lot-wrong', {'well': k, 'got': float(rem[k]), 'expected': x * scale, 'unit': unit}, case)
+            return
+        if abs(fin[k] - x * scale) > tol[k]:
+            col.report('lots/get_container_flows/well-of-another-lot-wrong', {'well': k, 'got': float(fin[k]), 'expected': x * scale, 'unit': unit}, case)
+            return
+    col.nontrivial_key(f"lots|{unit}|{len(case['lots'])}")
+    col.sample(case)
+
+
 def run(col):
     pp = core.env.bootstrap()
     cfg = RefCfg()
+
+    def t_lots():
+        @given(st.lists(st.tuples(st.sampled_from([0.5, 1, 2, 5, 10, 20, 50]), st.sampled_from([0.01, 0.05, 0.1, 0.2]),
+                                  st.integers(20, 900)), min_size=2, max_size=3, unique_by=lambda t: t[0]),
+               st.sampled_from(['mg', 'ug', 'g']))
+        def test(lots, unit):
+            lots_case(col, pp, cfg, {'lots': [list(x) for x in lots], 'unit': unit})
+        return test
+    core.run_property(col, t_lots, budget(15, 150, col.tier), tag='lots')
     prof = {'max_steps': 10 if col.tier == 'quick' else 20, 'max_dim': 3, 'keep_failing': False,
             'weights': {'remove': 3, 'transfer': 8, 'solution': 3}, 'dilute_new_name': False, 'chain': True}
 
@@ -196,4 +249,6 @@ def run(col):
 
 def replay(col, case):
     pp = core.env.bootstrap()
+    if 'lots' in case:
+        return lots_case(col, pp, RefCfg(), case)
     check_program(col, pp, RefCfg(), case, queries=case.get('queries') or [])
